@@ -362,6 +362,30 @@ fn esc_attr(s: &str) -> String {
     s.replace('&', "&amp;").replace('<', "&lt;").replace('"', "&quot;")
 }
 
+/// optional LONG-NAME / DESC children that the FIBEX "name details" group allows on every named
+/// element; on anything but a PDU they carry no information for the model and must not leak into it
+fn name_noise(r: &mut Rng, ho: &str) -> Vec<String> {
+    let mut v = vec![];
+    if r.chance(1, 4) {
+        let t = *r.pick(TEXTS);
+        v.push(format!("<{ho}LONG-NAME>{}</{ho}LONG-NAME>", esc_text(r, t)));
+    }
+    if r.chance(1, 3) {
+        let t = *r.pick(&["stray description", "d&d", "engine speed report", "x"]);
+        v.push(format!("<{ho}DESC>{}</{ho}DESC>", esc_text(r, t)));
+    }
+    v
+}
+
+/// an element of a section the loader does not use (channels, gateways, function descriptions)
+fn unrelated_section(r: &mut Rng, fx: &str, ho: &str) -> String {
+    match r.below(3) {
+        0 => format!("<{fx}CHANNELS><{fx}CHANNEL ID=\"ch0\"><{ho}SHORT-NAME>chan</{ho}SHORT-NAME>{}</{fx}CHANNEL></{fx}CHANNELS>", name_noise(r, ho).concat()),
+        1 => format!("<{fx}FUNCTIONS><{fx}FUNCTION ID=\"fn0\"><{ho}SHORT-NAME>f</{ho}SHORT-NAME><{ho}DESC>function description</{ho}DESC></{fx}FUNCTION></{fx}FUNCTIONS>"),
+        _ => format!("<{fx}GATEWAYS><{fx}GATEWAY ID=\"gw\"><{ho}SHORT-NAME>g</{ho}SHORT-NAME>{}<{fx}ECU-REF ID-REF=\"E\"/></{fx}GATEWAY></{fx}GATEWAYS>", name_noise(r, ho).concat()),
+    }
+}
+
 /// XML text of one file of the layout
 pub fn emit_file(r: &mut Rng, els: &[El]) -> String {
     let (fx, ho) = *r.pick(&[("fx:", "ho:"), ("", ""), ("a:", "b:"), ("fx:", "")]);
@@ -373,12 +397,12 @@ pub fn emit_file(r: &mut Rng, els: &[El]) -> String {
     }
     x += &format!("<{fx}FIBEX xmlns:ho=\"http://www.asam.net/xml\" xmlns:fx=\"http://www.asam.net/xml/fbx\" xmlns:a=\"u:a\" xmlns:b=\"u:b\">{nl}");
     if r.chance(1, 2) {
-        x += &format!("<{fx}PROJECT ID=\"Project\"><{ho}SHORT-NAME>ProjectName</{ho}SHORT-NAME></{fx}PROJECT>{nl}");
+        x += &format!("<{fx}PROJECT ID=\"Project\"><{ho}SHORT-NAME>ProjectName</{ho}SHORT-NAME>{}</{fx}PROJECT>{nl}", name_noise(r, ho).concat());
     }
     x += &format!("<{fx}ELEMENTS>{nl}");
     if r.chance(1, 2) {
         // an ECU with its own manufacturer extension: must not leak into frames
-        x += &format!("<{fx}ECUS><{fx}ECU ID=\"E\"><{ho}SHORT-NAME>E</{ho}SHORT-NAME><{fx}MANUFACTURER-EXTENSION><SW_VERSION>1</SW_VERSION><APPLICATIONS><APPLICATION><APPLICATION_ID>ZZ</APPLICATION_ID><CONTEXTS><CONTEXT><CONTEXT_ID>YY</CONTEXT_ID></CONTEXT></CONTEXTS></APPLICATION></APPLICATIONS></{fx}MANUFACTURER-EXTENSION></{fx}ECU></{fx}ECUS>{nl}");
+        x += &format!("<{fx}ECUS><{fx}ECU ID=\"E\"><{ho}SHORT-NAME>E</{ho}SHORT-NAME>{}<{fx}MANUFACTURER-EXTENSION><SW_VERSION>1</SW_VERSION><APPLICATIONS><APPLICATION><APPLICATION_ID>ZZ</APPLICATION_ID><CONTEXTS><CONTEXT><CONTEXT_ID>YY</CONTEXT_ID></CONTEXT></CONTEXTS></APPLICATION></APPLICATIONS></{fx}MANUFACTURER-EXTENSION></{fx}ECU></{fx}ECUS>{nl}", name_noise(r, ho).concat());
     }
     let mut open_container: Option<&'static str> = None;
     let use_containers = r.chance(1, 2);
@@ -393,11 +417,17 @@ pub fn emit_file(r: &mut Rng, els: &[El]) -> String {
             if let Some(c) = open_container {
                 x += &format!("</{fx}{c}>{nl}");
             }
+            if r.chance(1, 5) {
+                x += &unrelated_section(r, fx, ho);
+            }
             x += &format!("<{fx}{want}>{nl}");
             open_container = Some(want);
         }
         if r.chance(1, 10) {
             x += "<!-- comment with a PDU word -->";
+        }
+        if !use_containers && r.chance(1, 8) {
+            x += &unrelated_section(r, fx, ho);
         }
         match e {
             El::P(p) => {
@@ -406,6 +436,10 @@ pub fn emit_file(r: &mut Rng, els: &[El]) -> String {
                     kids.push(format!("<{ho}DESC>{}</{ho}DESC>", esc_text(r, d)));
                 } else if r.chance(1, 6) {
                     kids.push(format!("<{ho}DESC></{ho}DESC>")); // empty description == no description
+                }
+                if r.chance(1, 5) {
+                    let t = *r.pick(TEXTS);
+                    kids.push(format!("<{ho}LONG-NAME>{}</{ho}LONG-NAME>", esc_text(r, t)));
                 }
                 if !p.sigs.is_empty() || r.chance(1, 3) {
                     let mut s = format!("<{fx}SIGNAL-INSTANCES>");
@@ -418,6 +452,12 @@ pub fn emit_file(r: &mut Rng, els: &[El]) -> String {
                                 format!("<{fx}SIGNAL-REF ID-REF=\"{}\"></{fx}SIGNAL-REF>", n)
                             },
                         ];
+                        if r.chance(1, 4) {
+                            k2.push(format!("<{fx}BIT-POSITION>{}</{fx}BIT-POSITION>", r.below(64)));
+                        }
+                        if r.chance(1, 6) {
+                            k2.push(format!("<{fx}IS-HIGH-LOW-BYTE-ORDER>false</{fx}IS-HIGH-LOW-BYTE-ORDER>"));
+                        }
                         r.shuffle(&mut k2);
                         s += &format!("<{fx}SIGNAL-INSTANCE {attr_prefix}ID=\"si{}\">{}</{fx}SIGNAL-INSTANCE>{nl}", k, k2.concat());
                     }
@@ -439,6 +479,12 @@ pub fn emit_file(r: &mut Rng, els: &[El]) -> String {
                             format!("<{fx}PDU-REF {attr_prefix}ID-REF=\"{}\"></{fx}PDU-REF>", n)
                         },
                     ];
+                    if r.chance(1, 4) {
+                        k2.push(format!("<{fx}BIT-POSITION>{}</{fx}BIT-POSITION>", r.below(64)));
+                    }
+                    if r.chance(1, 6) {
+                        k2.push(format!("<{fx}IS-HIGH-LOW-BYTE-ORDER>true</{fx}IS-HIGH-LOW-BYTE-ORDER>"));
+                    }
                     r.shuffle(&mut k2);
                     s += &format!("<{fx}PDU-INSTANCE ID=\"pi{}\">{}</{fx}PDU-INSTANCE>{nl}", k, k2.concat());
                 }
@@ -465,17 +511,27 @@ pub fn emit_file(r: &mut Rng, els: &[El]) -> String {
                     r.shuffle(&mut k3);
                     kids.push(format!("<{fx}MANUFACTURER-EXTENSION>{}</{fx}MANUFACTURER-EXTENSION>", k3.concat()));
                 }
+                kids.extend(name_noise(r, ho));
                 r.shuffle(&mut kids);
                 x += &format!("<{fx}FRAME ID=\"{}\">{nl}{}{nl}</{fx}FRAME>{nl}", esc_attr(&fr.id), kids.join(nl));
             }
             El::S(id, c) => {
-                x += &format!("<{fx}SIGNAL ID=\"{}\"><{ho}SHORT-NAME>{}</{ho}SHORT-NAME><{fx}CODING-REF ID-REF=\"{}\"/></{fx}SIGNAL>{nl}", id, id, c);
+                let mut kids = vec![format!("<{ho}SHORT-NAME>{}</{ho}SHORT-NAME>", id), format!("<{fx}CODING-REF ID-REF=\"{}\"/>", c)];
+                kids.extend(name_noise(r, ho));
+                if r.chance(1, 2) {
+                    r.shuffle(&mut kids);
+                }
+                x += &format!("<{fx}SIGNAL ID=\"{}\">{}</{fx}SIGNAL>{nl}", id, kids.concat());
             }
             El::C(id, b) => {
+                // a PHYSICAL-TYPE with its own (different) base data type: only the CODED-TYPE counts
+                let phys = if r.chance(1, 3) { format!("<{ho}PHYSICAL-TYPE {ho}BASE-DATA-TYPE=\"{}\"/>", r.pick(BASE_TYPES)) } else { String::new() };
+                let (phys_before, phys_after) = if r.chance(1, 2) { (phys.clone(), String::new()) } else { (String::new(), phys.clone()) };
+                let noise = name_noise(r, ho).concat();
                 x += &if r.chance(1, 2) {
-                    format!("<{fx}CODING ID=\"{}\"><{ho}SHORT-NAME>{}</{ho}SHORT-NAME><{ho}CODED-TYPE {ho}BASE-DATA-TYPE=\"{}\" CATEGORY=\"STANDARD-LENGTH-TYPE\"/></{fx}CODING>{nl}", id, id, b)
+                    format!("<{fx}CODING ID=\"{}\"><{ho}SHORT-NAME>{}</{ho}SHORT-NAME>{noise}{phys_before}<{ho}CODED-TYPE {ho}BASE-DATA-TYPE=\"{}\" CATEGORY=\"STANDARD-LENGTH-TYPE\"/>{phys_after}</{fx}CODING>{nl}", id, id, b)
                 } else {
-                    format!("<{fx}CODING ID=\"{}\"><{ho}CODED-TYPE CATEGORY=\"X\" BASE-DATA-TYPE=\"{}\"><{ho}BIT-LENGTH>8</{ho}BIT-LENGTH></{ho}CODED-TYPE></{fx}CODING>{nl}", id, b)
+                    format!("<{fx}CODING ID=\"{}\">{phys_before}<{ho}CODED-TYPE CATEGORY=\"X\" BASE-DATA-TYPE=\"{}\"><{ho}BIT-LENGTH>8</{ho}BIT-LENGTH></{ho}CODED-TYPE>{phys_after}{noise}</{fx}CODING>{nl}", id, b)
                 };
             }
         }
